@@ -78,6 +78,21 @@ theorem decodeParam_obj_undecodable (o : Obj) (ho : o.ok) (fuel : Nat) (d : DecS
           BaseType.isNumeric, odxassert, hb0, hnl, he, hb, hm8, hhl, hnone] at hx
         subst hx
         exact ⟨_, _, rfl, fun _ => rfl⟩
+  · obtain ⟨hm8, hhl⟩ := hsz
+    have e2 : (8 - o.bl % 8) % 8 = 0 := by omega
+    rw [e2, Nat.pow_zero, Nat.mul_one, hhl] at hdec
+    cases hb : o.bytePos <;> simp only [hb] at hlen hdec
+    all_goals
+      have hnl : ¬ (d.msg.length < _ + (o.bl + o.bitPos.getD 0 + 7) / 8) := Nat.not_lt.mpr hlen
+      have hnone := Option.not_isSome_iff_eq_none.mp hdec
+      generalize hx : decodeParam (fuel + 2) o.toParam d true = x
+      rcases hk with he | he
+      all_goals
+        simp [Obj.toParam, Obj.bt, hkind, decodeParam, decodeDop, decodeDct, extractAtomic, extractCore, convertRaw,
+          stringCodec, bind, pure, run_bind, run_pure, run_getS, run_modifyS, run_ite, run_raise, run_odxraise_strict,
+          BaseType.isNumeric, odxassert, hb0, hnl, he, hb, hm8, hhl, hnone] at hx
+        subst hx
+        exact ⟨_, _, rfl, fun _ => rfl⟩
 
 theorem decodeParam_const_obj_undecodable (o : Obj) (ho : o.ok) (v : IVal) (fuel : Nat) (d : DecState)
     (hlen : o.pos d.origin d.cursorByte + o.k ≤ d.msg.length)
@@ -102,6 +117,21 @@ theorem decodeParam_const_obj_undecodable (o : Obj) (ho : o.ok) (v : IVal) (fuel
           he, hb, hnone] at hx
         subst hx
         exact ⟨_, _, rfl, fun h => absurd rfl h⟩
+  · obtain ⟨hm8, hhl⟩ := hsz
+    have e2 : (8 - o.bl % 8) % 8 = 0 := by omega
+    rw [e2, Nat.pow_zero, Nat.mul_one, hhl] at hdec
+    cases hb : o.bytePos <;> simp only [hb] at hlen hdec
+    all_goals
+      have hnl : ¬ (d.msg.length < _ + (o.bl + o.bitPos.getD 0 + 7) / 8) := Nat.not_lt.mpr hlen
+      have hnone := Option.not_isSome_iff_eq_none.mp hdec
+      generalize hx : decodeParam (fuel + 1) (o.toConstParam v) d true = x
+      rcases hk with he | he
+      all_goals
+        simp [Obj.toConstParam, Obj.bt, hkind, decodeParam, decodeDct, extractAtomic, extractCore, convertRaw,
+          stringCodec, bind, pure, run_bind, run_pure, run_getS, run_modifyS, run_ite, run_raise, run_odxraise_strict,
+          BaseType.isNumeric, odxassert, hb0, hnl, he, hb, hm8, hhl, hnone] at hx
+        subst hx
+        exact ⟨_, _, rfl, fun _ => rfl⟩
   · obtain ⟨hm8, hhl⟩ := hsz
     have e2 : (8 - o.bl % 8) % 8 = 0 := by omega
     rw [e2, Nat.pow_zero, Nat.mul_one, hhl] at hdec
